@@ -411,6 +411,14 @@ class Handler(Contract):
         plain_bool = isinstance(r, bool) or (is_z3(r) and z3.is_bool(r))
         out.append(("C06: exactly one call of numpy's implementation",
                     len(recs) == 1 or (plain_bool and len(recs) == 0)))
+        if plain_bool and len(recs) == 0:
+            # a verdict given without asking NumPy (array_equal / array_equiv: False for operands in
+            # different units) is legitimate only if some two operands really are in different units
+            us = [x.fields["units"] for x in self.all_arrays().values()]
+            differ = [z3.Not(units_equal(it, us[i], us[j])) for i in range(len(us)) for j in range(i + 1, len(us))]
+            out.append(("C06: a verdict without a NumPy call is given only for operands whose units differ",
+                        z3.Or(*differ) if differ else False))
+            out.append(("C06: such a verdict is False", r is False or (is_z3(r) and z3.is_false(z3.simplify(r)))))
         out += self.merge_post(it)
         out += self.frames(it, old)
         return out
